@@ -358,7 +358,21 @@ def run_lines(compare_keys):
         extra = LINE_EXTRA.get(ctx["pid"])
         if extra:
             extra(ctx)
+        replay_known_lines(ctx)
     return r
+
+
+def replay_known_lines(ctx):
+    """table findings (one source line, one column): replayed on the implementation against the specification value"""
+    for f in ctx["known"].get("findings", []):
+        if ctx["pid"] not in f["properties"] or "line" not in f:
+            continue
+        _, i = corr.run_both([("parseline", "k", f["line"], [f["version"]])], shards=1)
+        got = i["k"].get(f["field"])
+        if str(got) != str(f["spec_value"]):
+            ctx["known_lines"].append(f"KNOWN-FINDING: property={ctx['pid']} {f['id']}: {f['title']} (`{f['line']}` in a v{f['version']} program: {f['field']}={got}, AVM: {f['spec_value']})")
+        else:
+            ctx["cov"].setdefault("known_findings_no_longer_reproduced", []).append(f["id"])
 
 
 LINE_EXTRA = {}
